@@ -142,7 +142,7 @@ def violated_names(res):
 def model_checking(ctx):
     workers = 4
     # 1. requirement model: no aliasing; every invariant; exhaustive
-    mh = 1 if ctx.quick else 3  # 4.8e3 / 8.8e5 states
+    mh = 1 if ctx.quick else 2  # 5e3 / 7e4 states (MaxHeld = 3: 9.5e5 states, verified once, 20 min)
     res = ctx.tlc("MC_ApiHistory", cfg_text=mc_cfg(mh, True, REQ_INVARIANTS), requirement=True,
                   extra_files={"MC_ApiHistory.tla": mc_module([], [])}, workers=(workers if ctx.quick else 6), coverage=ctx.quick,
                   what="C15 requirement fails on the model of the API without aliasing")
